@@ -163,6 +163,7 @@ class Sub:
         shards=None,
         doc="",
         sweep=False,
+        fuzz=None,
     ):
         self.name = name
         self.check = check
@@ -172,6 +173,8 @@ class Sub:
         self.shards = shards or {"quick": 4, "thorough": 16}
         self.doc = doc
         self.sweep = sweep  # all shards run the same cases (same Hypothesis seed) under different hash seeds
+        # coverage-guided campaigns on top of the random shards: {tier: (number of atheris shards, seconds each)}
+        self.fuzz = fuzz or {}
 
 
 def close(a, b, rtol=1e-9, atol=1e-9):
